@@ -85,7 +85,21 @@ type rtPlan struct {
 	idemVar   int  // query: 1 = Idempotent() not called where the cluster default says the same; batch: 1 = a single entry is not idempotent, 2 = no entry is touched
 	niEntry   int  // batch, idemVar 1: the entry that is not idempotent
 	specSrc   int  // specK == 0: 0 = policy not set, 1 = NonSpeculativeExecution set, 2 = SimpleSpeculativeExecution{NumAttempts: 0} set
+
+	// race (speculatively executed statements only; 0 = every answer can be delivered at any
+	// time: the old behaviour): whose answers the nodes withhold while the call is running.
+	// rtRaceOrigHeld: those to the original execution, so that a speculative one is the first
+	// to complete; rtRaceSpecHeld: those to the original until a speculative execution has
+	// started (or the speculative delay is over), and from then on those to the speculative
+	// executions, so that the original completes first while they are still awaited.
+	race int
 }
+
+const (
+	rtRaceNone = iota
+	rtRaceOrigHeld
+	rtRaceSpecHeld
+)
 
 const (
 	rtSrcStmt = iota
@@ -134,6 +148,9 @@ func (p *rtPlan) String() string {
 	} else if p.specSrc > 0 {
 		s += []string{"", " spec=NonSpeculativeExecution", " spec=simple(0 attempts)"}[p.specSrc]
 	}
+	if p.race > 0 {
+		s += []string{"", " answers-withheld=original", " answers-withheld=speculative"}[p.race]
+	}
 	if p.idemVar > 0 {
 		s += fmt.Sprintf(" idemVar=%d", p.idemVar)
 	}
@@ -178,7 +195,39 @@ type rtAtt struct {
 	// prevUsable: when this request arrived, the host of the operation's previous request
 	// still had an open connection that had carried requests before (one the pool holds)
 	prevUsable bool
+
+	op *rtOp
+	// g: the execution (goroutine running queryExecutor.do) that wrote this request (0 = not
+	// known); marked: that execution has told the host policy how the request ended
+	g        uint64
+	marked   bool
+	markStep int
+	markEv   int // index in rtOp.evs
+	withheld bool // its answer was kept back by the race plan at least once
 }
+
+// rtEv: what one execution of a statement did, as seen through the two policies it must
+// consult: the host selection policy (NextHost returning nothing, SelectedHost.Mark after
+// every attempt) and the retry policy. The events of a statement are kept in the order in
+// which they happened; g tells the executions apart.
+type rtEv struct {
+	kind int
+	step int
+	at   time.Duration
+	g    uint64
+	host string
+	err  error  // rtEvMark: what Mark was given
+	att  *rtAtt // rtEvMark: the request that ended (nil = none of this execution was awaited at that host)
+	ok   bool   // rtEvAttempt
+	typ  gocql.RetryType
+}
+
+const (
+	rtEvMark = iota
+	rtEvAttempt
+	rtEvDecision
+	rtEvNoHost
+)
 
 type rtCall struct {
 	step     int
@@ -199,10 +248,13 @@ type rtOp struct {
 	// what the cluster-wide policy does when it is consulted for a statement it does not govern
 	rec, foreignRec *rtRecPolicy
 
-	atts    []*rtAtt
-	calls   []rtCall
-	offered []string
-	marks   []string
+	atts     []*rtAtt
+	calls    []rtCall
+	offered  []string
+	marks    []string
+	evs      []rtEv
+	mainG    uint64 // the execution that asked for a host first: the original one
+	invokeAt time.Duration
 
 	started     bool
 	inflight    bool
@@ -225,7 +277,8 @@ type rtState struct {
 	ops      map[string]*rtOp
 	list     []*rtOp
 	byReply  map[*node.Reply]*rtAtt
-	awaited  map[string]bool // conn/stream of workload replies just delivered, until exec takes them
+	awaited  map[string]bool   // conn/stream of workload replies just delivered, until exec takes them
+	sentBy   map[string]uint64 // conn/stream -> goroutine that wrote the last request on it
 	timeout  time.Duration
 	exact    bool
 	armNI    bool
@@ -341,8 +394,21 @@ func (s *rtSelected) Mark(err error) {
 	if s.op == nil {
 		return
 	}
+	g := rtGoid()
+	step, now := s.st.k.Step(), s.st.k.SimTime()
 	s.st.mu.Lock()
 	s.op.marks = append(s.op.marks, s.addr+":"+ErrClass(err))
+	// the request this ends: the one this execution wrote to that host and has not accounted for
+	var att *rtAtt
+	for _, a := range s.op.atts {
+		if a.g == g && !a.marked && a.host == s.addr {
+			att = a
+		}
+	}
+	if att != nil {
+		att.marked, att.markStep, att.markEv = true, step, len(s.op.evs)
+	}
+	s.op.evs = append(s.op.evs, rtEv{kind: rtEvMark, step: step, at: now, g: g, host: s.addr, err: err, att: att})
 	s.st.mu.Unlock()
 }
 
@@ -362,6 +428,15 @@ func (p *rtHostPolicy) Pick(q gocql.ExecutableQuery) gocql.NextHost {
 	return func() gocql.SelectedHost {
 		nmu.Lock()
 		defer nmu.Unlock()
+		var g uint64
+		if op != nil {
+			g = rtGoid()
+			p.st.mu.Lock()
+			if op.mainG == 0 {
+				op.mainG = g
+			}
+			p.st.mu.Unlock()
+		}
 		for i < len(order) {
 			addr := order[i]
 			i++
@@ -377,6 +452,12 @@ func (p *rtHostPolicy) Pick(q gocql.ExecutableQuery) gocql.NextHost {
 				p.st.mu.Unlock()
 			}
 			return &rtSelected{info: h, addr: addr, op: op, st: p.st}
+		}
+		if op != nil {
+			step, now := p.st.k.Step(), p.st.k.SimTime()
+			p.st.mu.Lock()
+			op.evs = append(op.evs, rtEv{kind: rtEvNoHost, step: step, at: now, g: g})
+			p.st.mu.Unlock()
 		}
 		return nil
 	}
@@ -416,11 +497,12 @@ func (p *rtRecPolicy) Attempt(q gocql.RetryableQuery) bool {
 		p.st.mu.Unlock()
 	}
 	ok := p.inner.Attempt(q)
-	step := p.st.k.Step()
+	step, now, g := p.st.k.Step(), p.st.k.SimTime(), rtGoid()
 	n := q.Attempts()
 	p.st.mu.Lock()
 	p.op.inBackoff = false
 	p.op.calls = append(p.op.calls, rtCall{step: step, attempt: true, ok: ok, attempts: n, foreign: p.foreign})
+	p.op.evs = append(p.op.evs, rtEv{kind: rtEvAttempt, step: step, at: now, g: g, ok: ok})
 	p.st.mu.Unlock()
 	p.st.k.Rec("policy %s Attempt(attempts=%d)=%v%s", p.op.token, n, ok, p.tag())
 	return ok
@@ -428,9 +510,10 @@ func (p *rtRecPolicy) Attempt(q gocql.RetryableQuery) bool {
 
 func (p *rtRecPolicy) GetRetryType(err error) gocql.RetryType {
 	t := p.inner.GetRetryType(err)
-	step := p.st.k.Step()
+	step, now, g := p.st.k.Step(), p.st.k.SimTime(), rtGoid()
 	p.st.mu.Lock()
 	p.op.calls = append(p.op.calls, rtCall{step: step, typ: t, err: ErrClass(err), foreign: p.foreign})
+	p.op.evs = append(p.op.evs, rtEv{kind: rtEvDecision, step: step, at: now, g: g, typ: t})
 	p.st.mu.Unlock()
 	p.st.k.Rec("policy %s GetRetryType(%s)=%s%s", p.op.token, ErrClass(err), rtTypeName(t), p.tag())
 	return t
@@ -661,7 +744,7 @@ func runRetry(e *Env) {
 	e.Note("defaultIdempotence", clusterIdem)
 
 	cl := node.NewCluster(k, nHosts)
-	st := &rtState{k: k, cl: cl, ops: map[string]*rtOp{}, byReply: map[*node.Reply]*rtAtt{}, awaited: map[string]bool{}, timeout: timeout,
+	st := &rtState{k: k, cl: cl, ops: map[string]*rtOp{}, byReply: map[*node.Reply]*rtAtt{}, awaited: map[string]bool{}, sentBy: map[string]uint64{}, timeout: timeout,
 		exact: !relaxed, armNI: armNI, armIgn: armIgn, faultsOn: faultsOn}
 	var addrs []string
 	for _, h := range cl.Hosts {
@@ -673,6 +756,15 @@ func runRetry(e *Env) {
 	// within one quiescence window, which would make "the Nth occurrence" of the park plan
 	// depend on the Go scheduler.
 	gocql.VerifHook = func(point string, c *gocql.Conn, stream int) {
+		if point == "exec.afterWrite" {
+			// (never parked at:) which execution wrote the request that is now on the wire
+			g := rtGoid()
+			key := fmt.Sprintf("%s/s%d", ConnName(c), stream)
+			st.mu.Lock()
+			st.sentBy[key] = g
+			st.mu.Unlock()
+			return
+		}
 		if point != "exec.gotResp" {
 			return
 		}
@@ -790,6 +882,15 @@ func runRetry(e *Env) {
 			if pl.specK == 0 {
 				pl.specSrc = tp.Next(3)
 			}
+			// whose answers are withheld while a speculatively executed statement runs (0 =
+			// nobody's). Withholding an answer makes a node slow, which the fault-free
+			// configuration does not do.
+			if pl.specK > 0 && pl.idempotent {
+				pl.race = tp.Weighted([]int{3, 1, 1})
+				if !faultsOn {
+					pl.race = rtRaceNone
+				}
+			}
 			op := &rtOp{token: fmt.Sprintf("tok-%d-%d", ti, oi), plan: pl}
 			op.rec = st.newRec(op)
 			if clusterRT {
@@ -864,7 +965,8 @@ func runRetry(e *Env) {
 		op := st.ops[token]
 		now := k.SimTime()
 		st.mu.Lock()
-		att := &rtAtt{idx: len(op.atts), host: sc.Host.Addr, nonce: sc.Host.Nonce, sc: sc, step: rec.Step, at: now, stream: rec.Stream, cons: cons}
+		att := &rtAtt{idx: len(op.atts), host: sc.Host.Addr, nonce: sc.Host.Nonce, sc: sc, step: rec.Step, at: now, stream: rec.Stream, cons: cons, op: op}
+		att.g = st.sentBy[fmt.Sprintf("%s/s%d", sc.C.Name, rec.Stream)]
 		if n := len(op.atts); n > 0 {
 			prev := op.atts[n-1]
 			for _, c := range cl.SConns() {
@@ -1044,6 +1146,7 @@ func runRetry(e *Env) {
 				op.started = true
 				op.inflight = true
 				op.invoke = step
+				op.invokeAt = k.SimTime()
 				st.mu.Unlock()
 				k.Rec("call %s %s", token, pl)
 				var got string
@@ -1144,6 +1247,9 @@ func runRetry(e *Env) {
 		per := map[*node.SConn]int{}
 		for _, r := range cl.Held() {
 			if per[r.SC] >= cl.MaxDeliverChoices {
+				continue
+			}
+			if st.withheldNow(r) {
 				continue
 			}
 			per[r.SC]++
@@ -1289,8 +1395,33 @@ func (st *rtState) history(op *rtOp) string {
 		s         string
 	}
 	var evs []ev
+	// executions of a speculatively executed statement: x0 = the original, x1.. in the order
+	// in which they first did something
+	var xs map[uint64]string
+	if op.plan.specK > 0 && op.plan.idempotent {
+		xs = map[uint64]string{}
+		if op.mainG != 0 {
+			xs[op.mainG] = "x0"
+		}
+		for _, e := range op.evs {
+			if _, ok := xs[e.g]; !ok {
+				xs[e.g] = fmt.Sprintf("x%d", len(xs))
+			}
+		}
+		if fins, sound := st.finals(op); sound {
+			for _, f := range fins {
+				evs = append(evs, ev{f.step, 1 << 29, fmt.Sprintf("execution %s completed: %s", xs[f.g], f.why)})
+			}
+		}
+	}
 	for _, a := range op.atts {
 		s := fmt.Sprintf("#%d->%s cons=%d outcome=%s", a.idx, a.host, a.cons, []string{"rows", "error", "silence", "connection closed by the node"}[a.kind])
+		if x, ok := xs[a.g]; ok {
+			s += " by=" + x
+		}
+		if a.withheld {
+			s += " answer-withheld"
+		}
 		if a.kind == rtErr {
 			s += fmt.Sprintf("(%#x %s)", a.code, a.detail)
 		}
@@ -1523,6 +1654,9 @@ func (st *rtState) checkOp(op *rtOp) {
 
 	if spec {
 		st.checkSpecResult(op)
+		if k.Violation() == nil {
+			st.checkFirstCompleted(op)
+		}
 		return
 	}
 	k.Probe("non-speculative-query-completed")
@@ -1979,4 +2113,278 @@ func (st *rtState) ignoredAny(op *rtOp) bool {
 		}
 	}
 	return false
+}
+
+// withheldNow: does the race plan of the statement keep this answer back for now? (root
+// goroutine, from the action source: an answer that is kept back is not offered for delivery;
+// the settle phase delivers everything.)
+func (st *rtState) withheldNow(r *node.Reply) bool {
+	now := st.k.SimTime()
+	settling := st.k.Settling()
+	st.mu.Lock()
+	defer st.mu.Unlock()
+	a := st.byReply[r]
+	if a == nil || a.op == nil || settling {
+		return false
+	}
+	op, pl := a.op, a.op.plan
+	if pl.race == rtRaceNone || op.done || op.cancelFired || a.g == 0 || op.mainG == 0 {
+		return false
+	}
+	held := false
+	switch pl.race {
+	case rtRaceOrigHeld:
+		held = a.g == op.mainG
+	case rtRaceSpecHeld:
+		if a.g != op.mainG {
+			held = true
+			break
+		}
+		other := false
+		for _, b := range op.atts {
+			if b.g != 0 && b.g != op.mainG {
+				other = true
+			}
+		}
+		held = !other && now-op.invokeAt <= pl.specDelay+time.Millisecond
+	}
+	if held && !a.withheld {
+		a.withheld = true
+		st.k.Probe("race:answer-withheld:" + []string{"", "original", "speculative"}[pl.race])
+	}
+	return held
+}
+
+// rtFin: an execution of a statement has come to its end with a result of its own.
+type rtFin struct {
+	step   int
+	at     time.Duration
+	g      uint64
+	ev     int    // index in rtOp.evs of the event that was its end
+	ok     bool   // success (att: the request that was answered)
+	ignore bool   // the retry policy answered Ignore for err
+	err    error  // the failure
+	att    *rtAtt // the request whose end this is (nil: none, e.g. no host left)
+	why    string
+}
+
+// finals reconstructs, execution by execution, where each came to its end with a result of
+// its own: a success; or a failure that nothing turns into another attempt - the statement
+// has no retry policy, Attempt() said no, the decision was Rethrow / Ignore / undefined, or a
+// host was asked for after granted retries and none was left (the result is then the last
+// failure). A failure the policy answers with Retry / RetryNextHost is not an end. An
+// additional (speculative) execution that finds no host at its very start has no result (the
+// host iterator is shared, the others used the hosts up); the original execution's is
+// ErrNoConnections. An attempt that ended with the caller's or the executor's context
+// cancelled (Mark(nil) without a delivered success) is not counted either. sound reports
+// whether the events made sense to this reconstruction.
+func (st *rtState) finals(op *rtOp) (fins []rtFin, sound bool) {
+	pl := op.plan
+	type gst struct {
+		lastMark *rtEv
+		lastErr  error
+		granted  bool
+		ended    bool
+	}
+	G := map[uint64]*gst{}
+	for i := range op.evs {
+		ev := &op.evs[i]
+		s := G[ev.g]
+		if s == nil {
+			s = &gst{}
+			G[ev.g] = s
+		}
+		if s.ended {
+			return nil, false // an execution that went on after its end: not understood
+		}
+		fin := func(f rtFin) {
+			f.step, f.at, f.g, f.ev = ev.step, ev.at, ev.g, i
+			fins = append(fins, f)
+			s.ended = true
+		}
+		switch ev.kind {
+		case rtEvMark:
+			s.lastMark = ev
+			switch {
+			case ev.err == nil:
+				if a := ev.att; a != nil && a.kind == rtOK && a.dlv && a.dlvStep <= ev.step && !a.closed {
+					fin(rtFin{ok: true, att: a, why: "success"})
+				}
+				s.ended = true // (a context error otherwise: do returns at once)
+			case pl.rtKind == rtNone:
+				fin(rtFin{err: ev.err, att: ev.att, why: "failure, no retry policy"})
+			}
+		case rtEvAttempt:
+			if s.lastMark == nil || s.lastMark.err == nil {
+				return nil, false
+			}
+			if !ev.ok {
+				fin(rtFin{err: s.lastMark.err, att: s.lastMark.att, why: "failure, retry budget exhausted"})
+			} else {
+				s.lastErr, s.granted = s.lastMark.err, true
+			}
+		case rtEvDecision:
+			if s.lastMark == nil || s.lastMark.err == nil || !s.granted {
+				return nil, false
+			}
+			switch ev.typ {
+			case gocql.Retry, gocql.RetryNextHost:
+			case gocql.Rethrow:
+				fin(rtFin{err: s.lastMark.err, att: s.lastMark.att, why: "failure, Rethrow"})
+			case gocql.Ignore:
+				fin(rtFin{err: s.lastMark.err, att: s.lastMark.att, ignore: true, why: "failure, Ignore"})
+			default:
+				fin(rtFin{err: gocql.ErrUnknownRetryType, why: "failure, undefined retry type"})
+			}
+		case rtEvNoHost:
+			switch {
+			case s.lastErr != nil:
+				fin(rtFin{err: s.lastErr, why: "failure, no further host"})
+			case ev.g == op.mainG:
+				fin(rtFin{err: gocql.ErrNoConnections, why: "no host at all"})
+			}
+			s.ended = true
+		}
+	}
+	return fins, true
+}
+
+// checkFirstCompleted: "the caller gets exactly one result - the first to complete" (doc.go:
+// "the two parallel executions of the query race to return a result, the first received
+// result will be returned"). From the quiescence in which the first execution of a
+// speculatively executed statement has come to its end, the call must have returned, with
+// that execution's result: nothing else has to happen for it, in particular no answer that
+// another execution is still waiting for has to arrive. Steps are compared, never times: one
+// step is one action of the simulator followed by a quiescence, and between the end of an
+// execution and the return of the call the driver waits for nothing. (The settle phase is one
+// step as a whole, so nothing is asserted about it.) Calls whose context was cancelled are exempt.
+func (st *rtState) checkFirstCompleted(op *rtOp) {
+	k := st.k
+	pl := op.plan
+	if op.cancelFired {
+		k.Probe("first-completed:not-judged(call-cancelled)")
+		return
+	}
+	fins, sound := st.finals(op)
+	if !sound {
+		k.Probe("first-completed:not-judged(events-not-understood)")
+		return
+	}
+	if len(fins) == 0 {
+		k.Probe("first-completed:not-judged(no-execution-seen-to-complete)")
+		return
+	}
+	F := fins[0].step
+	for _, f := range fins {
+		if f.step < F {
+			F = f.step
+		}
+	}
+	var first []rtFin
+	for _, f := range fins {
+		if f.step == F {
+			first = append(first, f)
+		}
+	}
+	f0 := first[0]
+	who := "speculative"
+	if f0.g == op.mainG {
+		who = "original"
+	}
+	what := "failure"
+	if f0.ok {
+		what = "success"
+	}
+	// was another execution still waiting for an answer when the first one completed, and for
+	// how long was that answer withheld afterwards?
+	inflight, long := false, false
+	var waiting *rtAtt
+	for _, b := range op.atts {
+		// (the executions that lose are told so by their context: their requests end in the
+		// same step, after the event that was the end of the first)
+		if b.g == 0 || b.g == f0.g || b.step > F || (b.marked && b.markEv < f0.ev) || (b.closed && !b.dlv) {
+			continue
+		}
+		if b.dlv && b.dlvStep <= F {
+			continue
+		}
+		inflight = true
+		if waiting == nil {
+			waiting = b
+		}
+		end := b.at + st.timeout // its own request timeout ends the wait at the latest
+		if b.dlv && b.dlvAt < end {
+			end = b.dlvAt
+		}
+		if end-f0.at >= 50*time.Millisecond {
+			long = true
+		}
+	}
+	k.Probe("first-completed:judged")
+	if len(first) == 1 {
+		tag := "first-completed:" + who + "-" + what
+		k.Probe(tag)
+		if inflight {
+			k.Probe(tag + ":other-execution-still-awaiting-its-answer")
+			if !f0.ok {
+				k.Probe("first-completed:final-failure-with-other-in-flight:" + strings.TrimPrefix(f0.why, "failure, "))
+			}
+		}
+		if long {
+			k.Probe(tag + ":other-answer-withheld>=50ms-longer")
+		}
+	}
+	desc := func(f rtFin) string {
+		w := "a speculative execution"
+		if f.g == op.mainG {
+			w = "the original execution"
+		}
+		r := ErrClass(f.err)
+		if f.ok {
+			r = fmt.Sprintf("the rows of request #%d", f.att.idx)
+		} else if f.att != nil {
+			r += fmt.Sprintf(" (request #%d)", f.att.idx)
+		}
+		return fmt.Sprintf("%s completed at step %d: %s [%s]", w, f.step, r, f.why)
+	}
+	if op.ret > F {
+		wt := "no other execution was waiting for an answer"
+		if waiting != nil {
+			wt = fmt.Sprintf("request #%d to %s was still unanswered", waiting.idx, waiting.host)
+			if waiting.dlv {
+				wt += fmt.Sprintf(" (answered at step %d, +%v)", waiting.dlvStep, waiting.dlvAt-f0.at)
+			}
+		}
+		st.viol(op, "result-later-than-first-completed-execution", "%s (%s): %s, yet the call only returned at step %d with %s %q; %s. The caller gets the first result to complete, at once",
+			op.token, pl, desc(f0), op.ret, ErrClass(op.err), op.got, wt)
+		return
+	}
+	if op.ret < F {
+		// the call returned before any execution was seen to complete: what it returned is
+		// judged by checkSpecResult
+		k.Probe("first-completed:call-returned-before-any-seen-completion")
+		return
+	}
+	for _, f := range first {
+		switch {
+		case f.ok:
+			if op.err == nil && (pl.batch || st.resultAttempt(op) == f.att.idx) {
+				return
+			}
+		case op.err == nil:
+			if f.ignore {
+				k.Probe("ignore-returned-nil")
+				return
+			}
+		case op.err.Error() == f.err.Error():
+			// (the text of a server error names the request it answers)
+			return
+		}
+	}
+	var ds []string
+	for _, f := range first {
+		ds = append(ds, desc(f))
+	}
+	st.viol(op, "result-not-of-first-completed-execution", "%s (%s): the call returned at step %d with %s %q, which is not the result of the execution that completed first (%s)",
+		op.token, pl, op.ret, ErrClass(op.err), op.got, strings.Join(ds, "; "))
 }
